@@ -141,3 +141,24 @@ theorem d23_repaired :
       | _ => (some .fuel, none)) = (none, some (some (some 7))) := by decide
 
 end Sqfs.Witness.C19
+
+namespace Sqfs.Witness.C19
+open Sqfs.Obj
+
+/-! ### what the probe's `differ` means: a hook that does not carry the contents over is not equivalent
+
+`descGarble` is the repaired description with the value string table of the xattr writer duplicated *without its
+contents* (the seeded change to `str_table_copy` that drops the per-string use counts, which `sqfs_xattr_writer_flush`
+reads; the same shape as a `data_reader_copy` that copies only a prefix of the cached fragment block). -/
+def descGarble : Kind → CopyDesc
+  | .xattrWriter => { desc .xattrWriter with bufs := [.trim, .garble, .trim, .dup, .dup] }
+  | k => desc k
+
+theorem garbled_copy_is_not_wellformed : ¬ WfDesc (descGarble .xattrWriter) := by decide
+
+/-- the copy is balanced and releasable, but it does not observe what the original observes -/
+theorem garbled_copy_not_equivalent :
+    (match sqfsCopy descGarble 3 xwrHeap2.1 xwrHeap2.2 with
+      | (h, some c) => decide (view h c = view h xwrHeap2.2) | _ => true) = false := by decide
+
+end Sqfs.Witness.C19
